@@ -115,6 +115,14 @@ CLAIMS["C13"] = dict(text="bounded symbolic model checking + CrossHair: (1) for 
                     "over unroll(1|2)/space_unroll/roll leaves the expected form; (3) CrossHair: reshape_samples puts the outcome of pulse (shot, band, "
                     "bin) at that entry for symbolic N<=4, T<=4, shots<=3 (one band) and two bands of <=3", design_ref="5/C13",
                     note=NOTE + "; gate parameters are assumed non-zero in the loop harness (the p[0]==0 identity shortcut of Gate.apply is checked in C01/C02); outside: multi-band loop meaning, space_unroll state equality, T>4, crop/delay arithmetic")
+CLAIMS["C14"] = dict(text="bounded symbolic model checking with a semantic oracle: for every template (each interpretable operation family, plain and "
+                    "daggered, both target orders, numeric literals, free parameters, parameter expressions, measured-parameter expressions, post-"
+                    "selected homodyne/heterodyne, channels, preparations, a mixed sequence) x {Blackbird, XIR, XIR with declarations}, the real writer, "
+                    "the third-party parser (native) and the real loader produce a program that -- with free parameters bound to shared symbols and "
+                    "measurement outcomes shared -- maps an ARBITRARY symbolic state to the same state as the source on the real Gaussian backend, for "
+                    "all values; target, shots, cutoff_dim, dark_counts and measured modes survive; a TDM program keeps its per-bin arrays and unrolls to "
+                    "the same circuit", design_ref="5/C14",
+                    note=NOTE + "; partial claim: numeric literals are representatives (a literal must be concrete to be printed); symbolic parameters do not survive either format (two known findings)")
 NA_DEFAULT = "check not built yet in this session (plan: DESIGN.md section 5)"
 NA = {}
 
